@@ -69,6 +69,11 @@ Theorem C13_missing_time_refused :
 Proof. intros n d xs. exact (missing_time_refused n d xs []). Qed.
 Print Assumptions C13_missing_time_refused.
 
+Theorem C13_column_form_wrong_features_refused :
+  forall n c xs nf (cs : bool), c <> nf -> vtx (xmat n c xs) VNone (VInt nf) (VBool cs) = Err ValueError.
+Proof. exact column_form_wrong_features. Qed.
+Print Assumptions C13_column_form_wrong_features_refused.
+
 (* all eight time-aware methods are wrapped for multi_time, default time=None, start with the
    merge (cast_scalar=True, n_features=self.n_input_features) and never read `time` again *)
 Theorem C13_all_methods_go_through_merge :
